@@ -6,6 +6,8 @@ CONSTANTS
   CalShifts <- MCCalShifts
   ModUnits <- MCModUnits
   WeekStarts <- MCWeekStarts
+  Overrides <- MCOverrides
+  Weekdays <- MCWeekdays
 SPECIFICATION Spec
 CONSTRAINT Depth
 VIEW View
@@ -14,6 +16,8 @@ INVARIANT PathIndependent
 INVARIANT AddSubInverse
 INVARIANT ModifiersOk
 INVARIANT HistoryIndependent
+INVARIANT NavOk
 PROPERTY ConvPreserves
+PROPERTY SetKeeps
 PROPERTY CopyStutters
 CHECK_DEADLOCK FALSE
